@@ -954,7 +954,7 @@ func judge(c *vlib.Ctx, st *stats, h *host, p probe, o judgeOpts) {
 			for _, list := range suppLists(k) {
 				if list != "expiring-contract" {
 					// per-transaction lists: only forms with v1 transactions; every fourth probe and every genuine one
-					if cb.nTx == 0 || (fp%4 != 0 && !p.exp) {
+					if cb.nTx == 0 || ((o.lean || fp%4 != 0) && !p.exp) {
 						continue
 					}
 				}
@@ -964,7 +964,7 @@ func judge(c *vlib.Ctx, st *stats, h *host, p probe, o judgeOpts) {
 					door  string
 				}
 				asks := []ask{{nil, "", "supp-form"}}
-				if genuine != nil && list == "expiring-contract" && (fp%3 == 0 || p.exp) {
+				if genuine != nil && list == "expiring-contract" && (!o.lean && fp%3 == 0 || p.exp) {
 					asks = append(asks, ask{genuine, "g-first", "supp-form-placed"}, ask{genuine, "e-first", "supp-form-placed"})
 				}
 				for _, a := range asks {
